@@ -28,7 +28,7 @@ def record_containers(idx: ProgramIndex) -> Set[str]:
         if isinstance(n, ast.Assign) and len(n.targets) == 1 and isinstance(n.targets[0], ast.Attribute) \
                 and isinstance(n.targets[0].value, ast.Name) and n.targets[0].value.id == "self":
             v = n.value
-            if isinstance(v, ast.Dict) or (isinstance(v, ast.Call) and (dotted(v.func) or "").split(".")[-1] in ("dict", "OrderedDict")):
+            if isinstance(v, (ast.Dict, ast.DictComp)) or (isinstance(v, ast.Call) and (dotted(v.func) or "").split(".")[-1] in ("dict", "OrderedDict")):
                 out.add(n.targets[0].attr)
     return out
 
